@@ -1041,3 +1041,196 @@ Example option_fields_free_ex :
   set_revocation_nonce cl 5 <> cl /\
   verify_binding Ex.O Ex.c1 (set_revocation_nonce cl 5) = Ok tt.
 Proof. vm_compute. repeat split; try reflexivity. discriminate. Qed.
+
+(* ------------------------------------------------------------------ *)
+(* ---------- serialized schemas: every field the attribute names is in the claim ----------
+   For any assignment of field paths to the four data slots (every subset), a credential
+   accepted for a claim has, for every NAMED path, a successful field lookup whose encoding
+   is the claim's slot: an absent field is an error, never a zero slot; an unnamed slot is 0. *)
+Lemma fill_slot_named : forall mz p x, fill_slot mz p = Ok x -> p <> "" ->
+  exists v, m_field mz p = Ok v /\ x = v mod 2 ^ 256.
+Proof.
+  intros mz p x H Hp. unfold fill_slot in H.
+  destruct (String.eqb p "") eqn:E; [apply String.eqb_eq in E; contradiction|].
+  destruct (m_field mz p) as [v| | |]; cbn [bind] in H; try discriminate.
+  exists v. split; [reflexivity|]. now inversion H.
+Qed.
+
+Lemma fill_slot_unnamed : forall mz x, fill_slot mz "" = Ok x -> x = 0.
+Proof. intros mz x H. unfold fill_slot in H. cbn in H. now inversion H. Qed.
+
+Lemma parse_slots_serialized : forall c mz ty sl,
+  parse_slots c mz ty = Ok (sl, true) ->
+  exists a sp, get_serialization_attr c ty = Ok a /\ parse_serialization_attr a = Ok sp /\
+    fill_slot mz (p_index_a sp) = Ok (s_index_a sl) /\ fill_slot mz (p_index_b sp) = Ok (s_index_b sl) /\
+    fill_slot mz (p_value_a sp) = Ok (s_value_a sl) /\ fill_slot mz (p_value_b sp) = Ok (s_value_b sl).
+Proof.
+  intros c mz ty sl H. unfold parse_slots in H.
+  destruct (get_serialization_attr c ty) as [a| | |] eqn:Ha; cbn [bind] in H; try discriminate.
+  destruct (String.eqb a ""); [discriminate|].
+  destruct (parse_serialization_attr a) as [sp| | |] eqn:Hsp; cbn [bind] in H; try discriminate.
+  exists a, sp. split; [reflexivity|]. split; [exact Hsp|].
+  destruct (paths_is_empty sp) eqn:E.
+  - inversion H; subst sl. unfold paths_is_empty in E.
+    repeat (apply andb_prop in E; let h := fresh "E" in destruct E as [E h]; apply String.eqb_eq in h).
+    apply String.eqb_eq in E. rewrite E, E0, E1, E2. cbn. auto.
+  - destruct (fill_slot mz (p_index_a sp)) as [ia| | |]; cbn [bind] in H; try discriminate.
+    destruct (fill_slot mz (p_index_b sp)) as [ib| | |]; cbn [bind] in H; try discriminate.
+    destruct (fill_slot mz (p_value_a sp)) as [va| | |]; cbn [bind] in H; try discriminate.
+    destruct (fill_slot mz (p_value_b sp)) as [vb| | |]; cbn [bind] in H; try discriminate.
+    inversion H; subst sl. cbn. auto.
+Qed.
+
+(* what a claim accepted for a serialized credential holds in its four data slots *)
+Lemma binding_serialized_slots : forall O c cl mz ty sl,
+  verify_binding O c cl = Ok tt -> cred_view c = Ok (mz, ty, sl, true) ->
+  i2 cl = s_index_a sl /\ i3 cl = s_index_b sl /\ v2 cl = s_value_a sl /\ v3 cl = s_value_b sl.
+Proof.
+  intros O c cl mz ty sl H Hv.
+  apply verify_binding_iff in H. destruct H as (o & _ & Hd).
+  apply derive_inv in Hd. destruct Hd as (mz' & ty' & sl' & nm & rp & Hv' & Hrp & Hb).
+  rewrite Hv in Hv'. inversion Hv'; subst mz' ty' sl' nm. clear Hv'.
+  apply eff_root_pos_cases in Hrp. destruct Hrp as [(_ & _ & ->) | (D & _)]; [|discriminate].
+  apply build_reads in Hb. destruct Hb as (_ & _ & _ & _ & _ & _ & Hi3 & Hv3 & _ & Hr).
+  unfold root_reads in Hr.
+  destruct Hr as [(E & _) | [(E & _) | (_ & _ & Ha & Hb)]]; try discriminate E. auto.
+Qed.
+
+Definition slot_holds (mz : mzview) (path : string) (slot : Z) : Prop :=
+  if String.eqb path "" then slot = 0
+  else exists v, m_field mz path = Ok v /\ slot = v mod 2 ^ 256.
+
+Lemma fill_slot_holds : forall mz p x, fill_slot mz p = Ok x -> slot_holds mz p x.
+Proof.
+  intros mz p x H. unfold slot_holds. destruct (String.eqb p "") eqn:E.
+  - apply String.eqb_eq in E. subst p. now apply fill_slot_unnamed in H.
+  - apply fill_slot_named; [exact H|]. intros ->. discriminate.
+Qed.
+
+Theorem binding_slot_subset_sound : forall O c cl mz ty sl,
+  verify_binding O c cl = Ok tt -> cred_view c = Ok (mz, ty, sl, true) ->
+  exists a sp, get_serialization_attr c ty = Ok a /\ parse_serialization_attr a = Ok sp /\
+    slot_holds mz (p_index_a sp) (i2 cl) /\ slot_holds mz (p_index_b sp) (i3 cl) /\
+    slot_holds mz (p_value_a sp) (v2 cl) /\ slot_holds mz (p_value_b sp) (v3 cl).
+Proof.
+  intros O c cl mz ty sl H Hv.
+  destruct (binding_serialized_slots _ _ _ _ _ _ H Hv) as (E2 & E3 & E6 & E7).
+  assert (Hp : parse_slots c mz ty = Ok (sl, true)).
+  { unfold cred_view in Hv.
+    destruct (of_option (c_mz c) "merklize") as [mz0| | |]; cbn [bind] in Hv; try discriminate.
+    destruct (find_credential_type mz0) as [ty0| | |]; cbn [bind] in Hv; try discriminate.
+    destruct (parse_slots c mz0 ty0) as [[sl0 nm0]| | |] eqn:Hps; cbn [bind fst snd] in Hv; try discriminate.
+    inversion Hv; subst. exact Hps. }
+  destruct (parse_slots_serialized _ _ _ _ Hp) as (a & sp & Ha & Hsp & F1 & F2 & F3 & F4).
+  exists a, sp. rewrite E2, E3, E6, E7.
+  repeat split; try assumption; apply fill_slot_holds; assumption.
+Qed.
+
+(* two-credential form: a named field cannot be changed (mod 2^256) nor removed *)
+Corollary binding_named_field_bound : forall O c c' cl mz ty sl mz' ty' sl' a sp p,
+  verify_binding O c cl = Ok tt -> verify_binding O c' cl = Ok tt ->
+  cred_view c = Ok (mz, ty, sl, true) -> cred_view c' = Ok (mz', ty', sl', true) ->
+  get_serialization_attr c ty = Ok a -> get_serialization_attr c' ty' = Ok a ->
+  parse_serialization_attr a = Ok sp ->
+  p <> "" -> In p [p_index_a sp; p_index_b sp; p_value_a sp; p_value_b sp] ->
+  exists v v', m_field mz p = Ok v /\ m_field mz' p = Ok v' /\ v mod 2 ^ 256 = v' mod 2 ^ 256.
+Proof.
+  intros O c c' cl mz ty sl mz' ty' sl' a sp p H H' Hv Hv' Ha Ha' Hsp Hp Hin.
+  destruct (binding_slot_subset_sound _ _ _ _ _ _ H Hv) as (a1 & sp1 & Ha1 & Hsp1 & S1 & S2 & S3 & S4).
+  destruct (binding_slot_subset_sound _ _ _ _ _ _ H' Hv') as (a2 & sp2 & Ha2 & Hsp2 & T1 & T2 & T3 & T4).
+  rewrite Ha in Ha1. inversion Ha1; subst a1. rewrite Hsp in Hsp1. inversion Hsp1; subst sp1.
+  rewrite Ha' in Ha2. inversion Ha2; subst a2. rewrite Hsp in Hsp2. inversion Hsp2; subst sp2.
+  assert (Hne : String.eqb p "" = false).
+  { destruct (String.eqb p "") eqn:E; [apply String.eqb_eq in E; contradiction|reflexivity]. }
+  unfold slot_holds in *.
+  cbn [In] in Hin. destruct Hin as [E|[E|[E|[E|[]]]]]; subst p; rewrite Hne in *.
+  - destruct S1 as (v & Hm & Hx). destruct T1 as (v' & Hm' & Hx'). exists v, v'. repeat split; congruence.
+  - destruct S2 as (v & Hm & Hx). destruct T2 as (v' & Hm' & Hx'). exists v, v'. repeat split; congruence.
+  - destruct S3 as (v & Hm & Hx). destruct T3 as (v' & Hm' & Hx'). exists v, v'. repeat split; congruence.
+  - destruct S4 as (v & Hm & Hx). destruct T4 as (v' & Hm' & Hx'). exists v, v'. repeat split; congruence.
+Qed.
+
+(* ------------------------------------------------------------------ *)
+(* ---------- seeded variants of parseSlots, refuted ----------
+   parseSlots with its emptiness test and its slot filler as parameters; the model's
+   parse_slots is the instance (paths_is_empty, fill_slot). *)
+Definition parse_slots_with (is_empty : slots_paths -> bool) (fill : mzview -> string -> res Z)
+  (c : cred) (mz : mzview) (tp : string) : res (slots * bool) :=
+  a <- get_serialization_attr c tp ;;
+  if String.eqb a "" then Ok (slots_zero, false) else
+  sp <- parse_serialization_attr a ;;
+  if is_empty sp then Ok (slots_zero, true) else
+  ia <- fill mz (p_index_a sp) ;;
+  ib <- fill mz (p_index_b sp) ;;
+  va <- fill mz (p_value_a sp) ;;
+  vb <- fill mz (p_value_b sp) ;;
+  Ok ({| s_index_a := ia; s_index_b := ib; s_value_a := va; s_value_b := vb |}, true).
+
+Lemma parse_slots_is_instance : forall c mz tp,
+  parse_slots c mz tp = parse_slots_with paths_is_empty fill_slot c mz tp.
+Proof. reflexivity. Qed.
+
+(* isEmpty without the ValueB conjunct (seeded change C06-l) *)
+Definition is_empty_without_value_b (p : slots_paths) : bool :=
+  String.eqb (p_index_a p) "" && String.eqb (p_index_b p) "" && String.eqb (p_value_a p) "".
+(* fillSlot that leaves the slot zero when the field is absent (seeded change C06-n) *)
+Definition fill_slot_absent_is_zero (mz : mzview) (path : string) : res Z :=
+  if String.eqb path "" then Ok 0
+  else match m_field mz path with
+       | Ok v => Ok (v mod 2 ^ 256)
+       | Err _ => Ok 0
+       | Panic w => Panic w
+       | Diverge => Diverge
+       end.
+
+Module SlotEx.
+  Definition mzf (f : string -> res Z) : mzview :=
+    {| m_cs_type := Some (RVStr "urn:T"); m_top_type := None; m_root := 1000; m_field := f |}.
+  Definition cred_with (attr : string) (f : string -> res Z) : cred :=
+    {| c_mz := Some (mzf f); c_subject := None; c_expiration := None;
+       c_ctx := Some [ {| t_name := "T"; t_is_map := true; t_ctx := Some (CtxMap (Some attr)); t_id := "urn:T" |} ] |}.
+  Definition score (v : Z) : string -> res Z := fun p => if String.eqb p "score" then Ok v else Err "field".
+  Definition no_score : string -> res Z := fun _ => Err "field".
+  Definition only_b := "iden3:v1:slotValueB=score".
+End SlotEx.
+Import SlotEx.
+
+(* the code as it is: score 7 and score 8 give different slots, an absent score is an error *)
+Example slots_bound_ex :
+  parse_slots (cred_with only_b (score 7)) (mzf (score 7)) "urn:T" <>
+  parse_slots (cred_with only_b (score 8)) (mzf (score 8)) "urn:T" /\
+  parse_slots (cred_with only_b no_score) (mzf no_score) "urn:T" = Err "field" /\
+  parse_slots (cred_with only_b (score 0)) (mzf (score 0)) "urn:T" =
+    Ok ({| s_index_a := 0; s_index_b := 0; s_value_a := 0; s_value_b := 0 |}, true).
+Proof. vm_compute. repeat split; try reflexivity. discriminate. Qed.
+
+(* C06-l: with the weakened emptiness test a schema serializing only into value slot B binds nothing *)
+Theorem slots_without_value_b_refuted :
+  exists (attr : string) (v v' : Z), v <> v' /\
+    parse_slots_with is_empty_without_value_b fill_slot (cred_with attr (score v)) (mzf (score v)) "urn:T" =
+    parse_slots_with is_empty_without_value_b fill_slot (cred_with attr (score v')) (mzf (score v')) "urn:T" /\
+    parse_slots (cred_with attr (score v)) (mzf (score v)) "urn:T" <>
+    parse_slots (cred_with attr (score v')) (mzf (score v')) "urn:T".
+Proof.
+  exists only_b, 7, 8. split; [discriminate|]. split; [vm_compute; reflexivity|]. vm_compute. discriminate.
+Qed.
+
+(* C06-n: when an absent field leaves a zero slot, removing a field whose encoding is 0 changes nothing *)
+Theorem slots_absent_is_zero_refuted :
+  exists (attr : string),
+    parse_slots_with paths_is_empty fill_slot_absent_is_zero (cred_with attr (score 0)) (mzf (score 0)) "urn:T" =
+    parse_slots_with paths_is_empty fill_slot_absent_is_zero (cred_with attr no_score) (mzf no_score) "urn:T" /\
+    is_ok (parse_slots (cred_with attr (score 0)) (mzf (score 0)) "urn:T") = true /\
+    is_ok (parse_slots (cred_with attr no_score) (mzf no_score) "urn:T") = false.
+Proof. exists only_b. vm_compute. auto. Qed.
+
+(* end to end on the model: the honest claim of the score-7 credential is rejected for the
+   score-8 credential and for the credential without score *)
+Example slot_binding_ex :
+  let O := {| keccak := fun _ => 99; did_to_id := fun _ => None |} in
+  let c7 := cred_with only_b (score 7) in
+  let cl := match fst (to_core_claim O c7 None) with Ok cl => cl | _ => claim_zero end in
+  verify_binding O c7 cl = Ok tt /\
+  verify_binding O (cred_with only_b (score 8)) cl = Err e_another_credential /\
+  verify_binding O (cred_with only_b no_score) cl = Err "field".
+Proof. vm_compute. auto. Qed.
